@@ -13,6 +13,27 @@ CHECKS = {
         note='Virtual TCP delivers whole messages; lists symmetric; reference rule in refmodels/terrapin.py.',
         technique='explicit enumeration of all executions of the real CLI over a finite input product (0 deviations), reference-model oracle',
         design='3/C04'),
+    'C07': dict(
+        text='All ordered pairs (thorough: triples) of target archetypes, one per channel through which a scan edits rating state, as -T runs '
+             'with 1..3 worker threads in text/JSON/policy mode; every interleaving of the targets\' connection events up to a preemption bound '
+             'is executed under a gate scheduler and each target block is compared with a fresh single-target run.',
+        note='Thread switches are explored only at virtual I/O gates (resolve/connect/recv); archetype list bounds the channels covered.',
+        technique='stateless schedule exploration (preemption-bounded DFS) of the real worker pool under a controlled scheduler, differential oracle',
+        design='3/C07'),
+    'C08': dict(
+        text='Target lists mixing healthy archetypes with every failure archetype in every position, 1..3 threads, text and JSON, all gate '
+             'schedules up to a preemption bound; oracle: one block per target, ranked exit status, one JSON array.',
+        note='Same scheduler granularity as C07; per-target expected statuses come from fresh single-target runs.',
+        technique='stateless schedule + fault-archetype exploration of the real CLI, structural oracle on stdout/exit status',
+        design='3/C08'),
+    'C09': dict(
+        text='For each valid transcript archetype every (connection, message, fault) triple of the fault menu is executed against the real CLI '
+             '(truncation at byte offsets, close, stall, reset, garbage, every length field x5, wrong type, debug, duplicate, split, 1-byte '
+             'segments, refuse/timeout); thorough adds all pairs with a second message-level fault. Oracle: terminates within op/time bound, '
+             'documented status, complete report iff initial handshake well-formed.',
+        note='Virtual clock and op budget stand in for wall time; random DH exponent pinned; environment model mc/vnet.py + mc/peer.py.',
+        technique='deviation-bounded exhaustive fault enumeration (stateless exploration of the implementation under a fault injector)',
+        design='3/C09'),
 }
 
 PENDING_REASON = 'check not built yet in this session; see DESIGN.md section 3 for the planned bounded exploration'
